@@ -6,6 +6,7 @@ require (
 	github.com/apache/thrift v0.21.0
 	github.com/dgryski/go-jump v0.0.0-20211018200510-ba001c3ffce0
 	github.com/smallnest/rpcx v0.0.0
+	github.com/vmihailenco/msgpack/v5 v5.4.1
 )
 
 require (
@@ -45,7 +46,6 @@ require (
 	github.com/soheilhy/cmux v0.1.5 // indirect
 	github.com/tinylib/msgp v1.2.5 // indirect
 	github.com/valyala/fastrand v1.1.0 // indirect
-	github.com/vmihailenco/msgpack/v5 v5.4.1 // indirect
 	github.com/vmihailenco/tagparser/v2 v2.0.0 // indirect
 	golang.org/x/net v0.36.0 // indirect
 	golang.org/x/sync v0.11.0 // indirect
